@@ -89,7 +89,8 @@ type SchedSpec struct {
 type Scenario struct {
 	Run       uint64     `json:"run"`
 	Seed      uint64     `json:"seed"`
-	Cold      bool       `json:"cold,omitempty"` // simulate before any reference pass (first use of the library in the process when Run is the process's first)
+	Cold      bool       `json:"cold,omitempty"`      // simulate before any reference pass (first use of the library in the process when Run is the process's first)
+	SimFirst  bool       `json:"sim_first,omitempty"` // like Cold for the ORDER of the passes only: the simulated run comes before the solo passes, so that whatever the library remembers per input (a memo keyed by a query, a column name, a node) is first filled in concurrently
 	Shared    []ExprSpec `json:"shared"`
 	Tasks     [][]Op     `json:"tasks"`
 	Late      []bool     `json:"late,omitempty"` // Late[t]: task t is started by a KSpawn operation
@@ -239,6 +240,7 @@ var fieldChoices = []string{"", "", "", "default", "dflt field", "x"}
 func genScenario(r *zsimrt.Rand, run, seed uint64, cold bool, c *corpus) *Scenario {
 	sc := genScenario0(r, run, seed, cold, c)
 	assignOpts(sc)
+	assignOrder(sc)
 	return sc
 }
 
@@ -380,6 +382,11 @@ func genScenario0(r *zsimrt.Rand, run, seed uint64, cold bool, c *corpus) *Scena
 		// first-use burst: every task starts with the SAME call on the same (rich) input,
 		// so that whatever that path initialises lazily is first reached concurrently
 		q := c.rich(r)
+		if r.Intn(3) == 0 {
+			// ... or on a freshly generated input (odd column names, inputs with several faults): the
+			// first use of the paths that REJECT something is then concurrent too
+			q = strings.ToValidUTF8(genQuery(r, 0), "?")
+		}
 		f := fieldChoices[r.Intn(len(fieldChoices))]
 		kind := []string{KToPG, KToParam, KToPG, KToParam, KParse, KRender, KRenderParam, KCRenderParam, KMarshal, KString, KValidate, KUnmarshal}[r.Intn(12)]
 		for t := range sc.Tasks {
